@@ -36,6 +36,19 @@ type c07Case struct {
 	Sched    sim.Schedule
 	ProbeMs  int
 	StartLag []int // per honest participant: driver steps before which it is not started (staggered starts)
+	// Scripted: the Byzantine members' own frames are all withheld (their puppets only serve to learn
+	// their tag); what they send is exactly the generated Script.
+	Scripted bool
+	Script   []c07Move
+}
+
+type c07Move struct {
+	Src  int // Byzantine member index
+	Type int // 1 membership, 2 query, 3 response
+	View int // 0 copy of the latest view announced by honest member X, 1 {self, X}, 2 all honest participants + self, 3 X's latest view + self, 4 subset of the universe given by Mask
+	X    int
+	Mask int
+	Dest int // honest member index
 }
 
 var boundaryIDs = []int{0, 1, 2, 127, 128, 255, 256, 257, 511, 512, 0x7FFF, 0x8000, 0xFF00, 0xFFFE, 0xFFFF, 0x0105, 0x0205}
@@ -101,6 +114,21 @@ func genC07(byzantine bool) func(t *rapid.T) c07Case {
 					A:    rapid.IntRange(0, 70000).Draw(t, "la"),
 					B:    rapid.IntRange(0, 70000).Draw(t, "lb"),
 					Dest: rapid.IntRange(0, 255).Draw(t, "ldest"),
+				})
+			}
+		}
+		if byzantine && nb > 0 && rapid.Bool().Draw(t, "scripted") {
+			c.Scripted = true
+			c.Topics = 1
+			c.Lies = nil
+			for i := rapid.IntRange(1, 6).Draw(t, "nscript"); i > 0; i-- {
+				c.Script = append(c.Script, c07Move{
+					Src:  rapid.IntRange(0, nb-1).Draw(t, "ssrc"),
+					Type: rapid.SampledFrom([]int{1, 1, 2, 3, 3}).Draw(t, "stype"),
+					View: rapid.IntRange(0, 4).Draw(t, "sview"),
+					X:    rapid.IntRange(0, nh-1).Draw(t, "sx"),
+					Mask: rapid.IntRange(0, 255).Draw(t, "smask"),
+					Dest: rapid.IntRange(0, nh-1).Draw(t, "sdest"),
 				})
 			}
 		}
@@ -223,6 +251,9 @@ func runC07(c c07Case) *vh.Outcome {
 					tagsOf[f.From] = append(tagsOf[f.From], append([]byte(nil), tag...))
 				}
 			}
+			if c.Scripted && isByz[f.From] && !f.Injected {
+				return nil // withheld: the script decides what this member sends
+			}
 			if !isByz[f.From] || len(c.Lies) == 0 {
 				return []*sim.Frame{f}
 			}
@@ -338,6 +369,58 @@ func runC07(c c07Case) *vh.Outcome {
 				}
 			}
 			return true
+		}
+		if c.Scripted {
+			si := 0
+			latestView := func(id uint16) []uint16 {
+				var v []uint16
+				for _, f := range net.LogCopy() {
+					if f.From == id && !f.Injected {
+						if _, _, vw, ok := decodeView(f.Data); ok {
+							v = vw
+						}
+					}
+				}
+				return v
+			}
+			d.Extra = func() []sim.Action {
+				if si >= len(c.Script) {
+					return nil
+				}
+				mv := c.Script[si]
+				src := uni[c.Byz[mv.Src%len(c.Byz)]]
+				if len(tagsOf[src]) == 0 {
+					return nil // tag not learnt yet (the puppet has not produced a frame)
+				}
+				return []sim.Action{{Name: "byz-script", Slot: 900 + si, Do: func() {
+					si++
+					x := uni[c.Honest[mv.X%len(c.Honest)]]
+					dest := uni[c.Honest[mv.Dest%len(c.Honest)]]
+					var view []uint16
+					switch mv.View {
+					case 0:
+						view = latestView(x)
+					case 1:
+						view = []uint16{src, x}
+					case 2:
+						for _, p := range c.Honest {
+							view = append(view, uni[p])
+						}
+						view = append(view, src)
+					case 3:
+						view = append(append([]uint16(nil), latestView(x)...), src)
+					default:
+						for i, id := range uni {
+							if mv.Mask&(1<<uint(i%8)) != 0 {
+								view = append(view, id)
+							}
+						}
+					}
+					sort.Slice(view, func(i, j int) bool { return view[i] < view[j] })
+					info.LiesApplied++
+					net.Inject(&sim.Frame{From: src, To: dest, MsgType: 1, Data: encodeView(byte(mv.Type), tagsOf[src][0], view)})
+				}}}
+			}
 		}
 		interval := time.Duration(c.ProbeMs) * time.Millisecond
 		mkCall := func(id uint16, ti int, lag int, judged bool) *sim.Call {
